@@ -66,7 +66,10 @@ def gross_case(draw, tier="quick"):
     n = draw(gen.length(25))
     xs = draw(st.lists(gen.near(bounds, Q, 8.0), min_size=n, max_size=n))
     xs = draw(gen.overlay_missing(xs))
-    return {"x": xs, "fail": fail, "suspect": sus, "kind": draw(st.sampled_from(["list", "tuple"]))}
+    off = draw(gen.big_offset)
+    if off:
+        xs, fail, sus = gen.shifted(xs, off), gen.shifted(fail, off), (None if sus is None else gen.shifted(sus, off))
+    return {"x": xs, "fail": fail, "suspect": sus, "kind": draw(st.sampled_from(["list", "tuple"])), "offset": off}
 
 
 def check_gross(case, rec):
@@ -82,6 +85,8 @@ def check_gross(case, rec):
         labels.append("reversed_span")
     if fail[0] == fail[1]:
         labels.append("degenerate_fail")
+    if case.get("offset"):
+        labels.append("large_magnitude")
     rec.note(on, labels)
     kw = {"fail_span": _span(fail, case["kind"])}
     if sus is not None or case.get("explicit_none"):
